@@ -154,13 +154,13 @@ Proof. unfold hist_small. intros H. apply Z.leb_le in H. exact H. Qed.
 (* ---------- the property with the hypotheses under which it is proved (proofs/SelectorRunP.v complete_fixed) ---------- *)
 Definition complete_under_hyps (v : variant) : Prop :=
   forall hist o1 o2, Forall op_ok hist -> op_ok (HRead o1 o2) ->
-    hist_sorted hist -> hist_disciplined hist -> hist_small hist -> no_write_after_drop hist ->
+    hist_sorted hist -> hist_disciplined hist -> hist_small hist ->
     complete_at v (run v hist) o1 o2.
 
 (* all hypotheses of complete_under_hyps, decided for a concrete history *)
 Definition hyps_okb (h : list op) (o1 o2 : option Z) : bool :=
   forallb op_okb h && op_okb (HRead o1 o2) && sorted_zb (hist_data h) && hist_discb [] h
-  && (Z.of_nat (length (hist_data h)) <=? max_uint32) && nwadb false h.
+  && (Z.of_nat (length (hist_data h)) <=? max_uint32).
 
 (* ---------- the refutation witnesses ---------- *)
 Lemma not_complete_by_length v st o1 o2 :
@@ -175,41 +175,41 @@ Lemma refute_under_hyps v h o1 o2 :
   hyps_okb h o1 o2 = true -> lengths_differ v h o1 o2 = true -> ~ complete_under_hyps v.
 Proof.
   unfold hyps_okb. intros Hh Hd H.
-  apply andb_true_iff in Hh as [Hh H6]. apply andb_true_iff in Hh as [Hh H5]. apply andb_true_iff in Hh as [Hh H4].
+  apply andb_true_iff in Hh as [Hh H5]. apply andb_true_iff in Hh as [Hh H4].
   apply andb_true_iff in Hh as [Hh H3]. apply andb_true_iff in Hh as [H1 H2].
-  specialize (H h o1 o2 (hist_okb_ok _ H1) (op_okb_ok _ H2) (sorted_zb_ok _ H3) (hist_discb_ok _ _ H4) (hist_smallb_ok _ H5) (nwadb_ok _ _ H6)).
+  specialize (H h o1 o2 (hist_okb_ok _ H1) (op_okb_ok _ H2) (sorted_zb_ok _ H3) (hist_discb_ok _ _ H4) (hist_smallb_ok _ H5)).
   revert H. apply not_complete_by_length. unfold lengths_differ in Hd. apply negb_true_iff in Hd. apply Nat.eqb_neq in Hd. exact Hd.
 Qed.
 
-(* ---- what each of the three repairs bought: without it the statement is false although every hypothesis
-        holds (whatever the two other flags are) ---- *)
+(* ---- what each of the four repairs bought: without it the statement is false although every hypothesis
+        holds (whatever the other flags are) ---- *)
 
 (* (a) an equal-timestamp run across a sparse-index point; monotone data, explicit bounds: before the
        lower-bound repair RANGE ["20":"20"] delivered 1 of 251 events *)
 Definition wit_a : list op := [HBatch [mkseg 1 false (repeat 10 249 ++ [20])]; HBatch [mkseg 1 false (repeat 20 250)]].
 Lemma refuted_equal_run v : fix_lb v = false -> ~ complete_under_hyps v.
 Proof.
-  destruct v as [[] fz fo]; [discriminate|]. intros _.
+  destruct v as [[] fz fo fp]; [discriminate|]. intros _.
   apply (refute_under_hyps _ wit_a (Some 20) (Some 20)); [vm_compute; reflexivity|].
-  destruct fz, fo; vm_compute; reflexivity.
+  destruct fz, fo, fp; vm_compute; reflexivity.
 Qed.
 
 (* (b) a batch whose first timestamp is 0: iwrapper took 0 for "unset" (hull [5,7]) *)
 Definition wit_b : list op := [HBatch [mkseg 1 false [0; 5; 7]]].
 Lemma refuted_zero_first v : fix_zero v = false -> ~ complete_under_hyps v.
 Proof.
-  destruct v as [fl [] fo]; [discriminate|]. intros _.
+  destruct v as [fl [] fo fp]; [discriminate|]. intros _.
   apply (refute_under_hyps _ wit_b (Some (-10)) (Some 2)); [vm_compute; reflexivity|].
-  destruct fl, fo; vm_compute; reflexivity.
+  destruct fl, fo, fp; vm_compute; reflexivity.
 Qed.
 
 (* (d) an omitted lower bound was 0, not "unbounded" *)
 Definition wit_d : list op := [HBatch [mkseg 1 false [-5; -3; 4]]].
 Lemma refuted_open_lower v : fix_open v = false -> ~ complete_under_hyps v.
 Proof.
-  destruct v as [fl fz []]; [discriminate|]. intros _.
+  destruct v as [fl fz [] fp]; [discriminate|]. intros _.
   apply (refute_under_hyps _ wit_d None (Some 10)); [vm_compute; reflexivity|].
-  destruct fl, fz; vm_compute; reflexivity.
+  destruct fl, fz, fp; vm_compute; reflexivity.
 Qed.
 
 (* (e) a rebuilt index over negative timestamps: every segment max started at 0. The witness does not use
@@ -219,38 +219,44 @@ Definition wit_e : list op :=
    HBatch [mkseg 1 false (repeat (-500) 10)]; HBatch [mkseg 1 false (repeat (-400) 10)]; HBatch [mkseg 1 false (repeat (-300) 10)]].
 Lemma refuted_rebuild_negative v : fix_zero v = false -> ~ complete_under_hyps v.
 Proof.
-  destruct v as [fl [] fo]; [discriminate|]. intros _.
+  destruct v as [fl [] fo fp]; [discriminate|]. intros _.
   apply (refute_under_hyps _ wit_e (Some (-450)) (Some (-400))); [vm_compute; reflexivity|].
-  destruct fl, fo; vm_compute; reflexivity.
+  destruct fl, fo, fp; vm_compute; reflexivity.
 Qed.
 
-(* ---- the two hypotheses that remain are needed by the code as it is (all three repairs in) ---- *)
+(* (f) monotone timestamps: index lost, then a write before any sync, read before the rebuilder has run: before the
+       repair C02-write-after-index-loss the info created by that write had the hull of the written records only and
+       the older records of the chunk were skipped (300 x 100, index lost, 10 x 200: RANGE ["100":"150"] was empty) *)
+Definition wit_f : list op := [HBatch [mkseg 1 false (repeat 100 300)]; HDrop; HBatch [mkseg 1 false (repeat 200 10)]].
+Lemma refuted_drop_write v : fix_partial v = false -> ~ complete_under_hyps v.
+Proof.
+  destruct v as [fl fz fo []]; [discriminate|]. intros _.
+  apply (refute_under_hyps _ wit_f (Some 100) (Some 150)); [vm_compute; reflexivity|].
+  destruct fl, fz, fo; vm_compute; reflexivity.
+Qed.
+(* (f') the same made permanent by a clean restart inside the window: the rebuild request and the corrupted flag were
+       not saved, the next write gives the chunk an index of its own records, nothing rebuilds it any more *)
+Definition wit_f2 : list op :=
+  [HBatch [mkseg 1 false (repeat 100 300)]; HDrop; HBatch [mkseg 1 false (repeat 200 10)]; HRestart;
+   HBatch [mkseg 1 false (repeat 300 10)]; HSync; HRead (Some 0) (Some 1000); HServe].
+Lemma refuted_drop_write_restart v : fix_partial v = false -> ~ complete_under_hyps v.
+Proof.
+  destruct v as [fl fz fo []]; [discriminate|]. intros _.
+  apply (refute_under_hyps _ wit_f2 (Some 100) (Some 150)); [vm_compute; reflexivity|].
+  destruct fl, fz, fo; vm_compute; reflexivity.
+Qed.
+
+(* ---- the hypothesis about the data that remains is needed by the code as it is (all four repairs in) ---- *)
 
 (* (c) timestamps that are not monotone in stored order; every other hypothesis holds *)
 Definition wit_c : list op :=
   [HBatch [mkseg 1 false (repeat 100 250)]; HBatch [mkseg 1 false [500]]; HBatch [mkseg 1 false (repeat 200 250)]].
 Lemma refuted_nonmonotone :
-  exists hist o1 o2, Forall op_ok hist /\ op_ok (HRead o1 o2) /\ hist_disciplined hist /\ hist_small hist /\ no_write_after_drop hist /\
+  exists hist o1 o2, Forall op_ok hist /\ op_ok (HRead o1 o2) /\ hist_disciplined hist /\ hist_small hist /\
     ~ complete_at fixed_variant (run fixed_variant hist) o1 o2.
 Proof.
   exists wit_c, (Some 400), (Some 600). split; [apply hist_okb_ok; vm_compute; reflexivity|].
   split; [apply op_okb_ok; vm_compute; reflexivity|].
-  split; [apply hist_discb_ok; vm_compute; reflexivity|].
-  split; [apply hist_smallb_ok; vm_compute; reflexivity|].
-  split; [apply nwadb_ok; vm_compute; reflexivity|].
-  apply not_complete_by_length. vm_compute. discriminate.
-Qed.
-
-(* (f) monotone timestamps: index lost, then a write before any sync, read before the rebuilder has run;
-       every other hypothesis holds *)
-Definition wit_f : list op := [HBatch [mkseg 1 false (repeat 100 300)]; HDrop; HBatch [mkseg 1 false (repeat 200 10)]].
-Lemma refuted_drop_write :
-  exists hist o1 o2, Forall op_ok hist /\ op_ok (HRead o1 o2) /\ hist_sorted hist /\ hist_disciplined hist /\ hist_small hist /\
-    ~ complete_at fixed_variant (run fixed_variant hist) o1 o2.
-Proof.
-  exists wit_f, (Some 100), (Some 150). split; [apply hist_okb_ok; vm_compute; reflexivity|].
-  split; [apply op_okb_ok; vm_compute; reflexivity|].
-  split; [apply sorted_zb_ok; vm_compute; reflexivity|].
   split; [apply hist_discb_ok; vm_compute; reflexivity|].
   split; [apply hist_smallb_ok; vm_compute; reflexivity|].
   apply not_complete_by_length. vm_compute. discriminate.
@@ -259,4 +265,4 @@ Qed.
 (* hence the statement without hypotheses is false of the code as it is *)
 Lemma refuted_full :
   ~ (forall hist o1 o2, Forall op_ok hist -> op_ok (HRead o1 o2) -> complete_at fixed_variant (run fixed_variant hist) o1 o2).
-Proof. intros H. destruct refuted_nonmonotone as (h & o1 & o2 & H1 & H2 & _ & _ & _ & Hn). exact (Hn (H h o1 o2 H1 H2)). Qed.
+Proof. intros H. destruct refuted_nonmonotone as (h & o1 & o2 & H1 & H2 & _ & _ & Hn). exact (Hn (H h o1 o2 H1 H2)). Qed.
